@@ -69,7 +69,7 @@ static void run_case(const JVal& in) {
             } else {
                 prepare_other_kind(preps[i], qs[i]); preps[i].prepare(qs[i]);
                 embedded_pairing_bls12_381_prepared_pair_t pp; memset(&pp, 0xA5, sizeof pp);
-                pp.g1 = (embedded_pairing_bls12_381_g1affine_t*) &ps[pi]; pp.g2 = (embedded_pairing_bls12_381_g2prepared_t*) &preps[i];
+                pp.g1 = (embedded_pairing_bls12_381_g1affine_t*) &ps[pi]; pp.g2 = (embedded_pairing_bls12_381_g2prepared_t*) &preps[qi];
                 pps.push_back(pp);
             }
         }
